@@ -151,6 +151,25 @@ def check_model(module, cfg, workers=None, timeout=3600, heap="8g", extra=None, 
     return r
 
 
+def apalache_inductive(module, ind_inv="IndInv", ind_init="IndInit", init="Init", timeout=900):
+    """Discharge a one-step inductive invariant with Apalache (symbolic; for models whose real constants are out of TLC's
+    reach): Init => IndInv (length 0) and IndInv and Next imply IndInv' (length 1).  Returns wall seconds; raises
+    MachineryError unless both runs end with 'The outcome is: NoError'."""
+    import subprocess, shutil as _sh
+    tmp = scratch("verif_apa_")
+    t0 = time.time()
+    try:
+        for args in (["--init=" + init, "--inv=" + ind_inv, "--length=0"], ["--init=" + ind_init, "--inv=" + ind_inv, "--length=1"]):
+            p = subprocess.run(["timeout", str(timeout), "apalache-mc", "check"] + args + ["--out-dir=" + tmp, "--run-dir=" + os.path.join(tmp, "run"), module + ".tla"],
+                               cwd=SPEC, capture_output=True, text=True)
+            out = p.stdout + p.stderr
+            if "The outcome is: NoError" not in out:
+                raise MachineryError(f"Apalache did not discharge {ind_inv} of {module} ({' '.join(args)}): {out[-600:]}")
+    finally:
+        _sh.rmtree(tmp, ignore_errors=True)
+    return time.time() - t0
+
+
 TRACE_CFG = "SPECIFICATION Spec\nPOSTCONDITION KitPost\nCHECK_DEADLOCK FALSE\n"
 
 
